@@ -71,12 +71,15 @@ theorem C20_rejected_noop (U : Universe) (fuel : Nat) (t : TSt) (f : Field) (v :
     (hs : stored t.is3D f v = none) : setField U fuel t f v = (t, .raised "TypeError") := by
   simp only [setField, hs]
 
-/-- Values given at construction are stored the same way and nothing is notified. -/
+/-- Values given at construction are stored as the setters would store them - position, scale and the 3D
+rotation as the vector of the given components (`Vec2(*value)`: `asVec`), the 2D rotation reduced - and
+nothing is notified. -/
 theorem C20_ctor (is3D : Bool) (held : List Obj) (pos rot scale : Option Val) (t : TSt)
     (h : construct is3D held pos rot scale = some t) :
-    (∀ p, pos = some p → t.read .position = p) ∧
-    (∀ s, scale = some s → t.read .scale = s) ∧
-    (∀ r, rot = some r → stored is3D .rotation r = some (t.read .rotation)) ∧
+    (∀ p, pos = some p → t.read .position = asVec p) ∧
+    (∀ s, scale = some s → t.read .scale = asVec s) ∧
+    (∀ r, rot = some r →
+      stored is3D .rotation (if is3D then asVec r else r) = some (t.read .rotation)) ∧
     t.d.log = [] := by
   unfold construct at h
   simp only [Option.map_eq_some_iff] at h
@@ -86,6 +89,10 @@ theorem C20_ctor (is3D : Bool) (held : List Obj) (pos rot scale : Option Val) (t
   · intro p hp; subst hp; rfl
   · intro s hs; subst hs; rfl
   · intro r hr'; subst hr'; exact hr
+
+/-- a vector stays the vector it is; a tuple or list becomes the vector of its components -/
+example : asVec (.tok "p1_2") = .tok "p1_2" ∧ asVec (.tok "t1_2") = .tok "p1_2" ∧
+    asVec (.tok "l3_4_5") = .tok "p3_4_5" ∧ asVec (.half 7) = .half 7 := by decide +kernel
 
 /-! non-vacuity -/
 private def exU : Universe :=
